@@ -309,6 +309,7 @@ func (t *blsTracer) signingRootCall(pk *packages.Package, fd *ast.FuncDecl, e as
 func ruleBLSVerify(c *Ctx) {
 	t := newBLSTracer(c.P)
 	nSites := 0
+	blsAlways(c)
 	c.P.funcDecls(func(pk *packages.Package, fd *ast.FuncDecl) {
 		info := pk.TypesInfo
 		parents := parentMap(fd.Body)
@@ -661,4 +662,191 @@ func ruleSeedDomain(c *Ctx) {
 	if len(missing) > 0 {
 		anchorFail("GetSeed consumers not found: %v", missing)
 	}
+}
+
+
+func isBLSVerifyCall(info *types.Info, call *ast.CallExpr) bool {
+	f := calleeFunc(info, call)
+	if f == nil || f.Pkg() == nil || !strings.Contains(f.Pkg().Path(), "bls12-381-util") {
+		return false
+	}
+	switch f.Name() {
+	case "Verify", "FastAggregateVerify", "Eth2FastAggregateVerify", "AggregateVerify":
+		return true
+	}
+	return false
+}
+
+// blsAlways: a signature check that is only evaluated under some condition is no check when the condition fails. Every
+// BLS verification — and every call of a module function that hands a verification's verdict on as its result — is
+// evaluated on every path through its function that reaches it: it stands under no enclosing branch and after no
+// short-circuit operand, other than (i) tests of an error value against nil and (ii) the reviewed conditions of
+// blsConditional (process_deposit verifies the proof of possession of NEW validators only).
+func blsAlways(c *Ctx) {
+	// functions whose boolean result is a verification's verdict
+	verdict := map[*types.Func]bool{}
+	for changed := true; changed; {
+		changed = false
+		c.P.funcDecls(func(pk *packages.Package, fd *ast.FuncDecl) {
+			f, _ := pk.TypesInfo.Defs[fd.Name].(*types.Func)
+			if f == nil || verdict[f] || fd.Body == nil {
+				return
+			}
+			ast.Inspect(fd.Body, func(n ast.Node) bool {
+				if _, ok := n.(*ast.FuncLit); ok {
+					return false
+				}
+				r, ok := n.(*ast.ReturnStmt)
+				if !ok {
+					return true
+				}
+				for _, res := range r.Results {
+					if call, ok := ast.Unparen(res).(*ast.CallExpr); ok {
+						if isBLSVerifyCall(pk.TypesInfo, call) {
+							verdict[f], changed = true, true
+						} else if g := calleeFunc(pk.TypesInfo, call); g != nil && verdict[g] {
+							verdict[f], changed = true, true
+						}
+					}
+				}
+				return true
+			})
+		})
+	}
+	c.P.funcDecls(func(pk *packages.Package, fd *ast.FuncDecl) {
+		if fd.Body == nil || !strings.Contains(pk.PkgPath, "/eth2/") {
+			return
+		}
+		info := pk.TypesInfo
+		parents := parentMap(fd.Body)
+		fn := pkgShort(pk.Types) + "." + funcName(fd)
+		cnt := 0
+		ast.Inspect(fd.Body, func(n ast.Node) bool {
+			call, ok := n.(*ast.CallExpr)
+			if !ok {
+				return true
+			}
+			what := ""
+			if isBLSVerifyCall(info, call) {
+				what = "the signature check"
+			} else if g := calleeFunc(info, call); g != nil && verdict[g] {
+				what = "the signature check of " + g.Name()
+			} else {
+				return true
+			}
+			cnt++
+			key := fn + ".always"
+			if cnt > 1 {
+				key += "#" + itoa(int64(cnt))
+			}
+			// on the control-flow graph: every path to an accepting exit (nil error, true, ACCEPT) evaluates this call
+			this := call
+			pp := newPathPass(c.P, pk, func(_ *types.Info, k ast.Node) bool { return k == ast.Node(this) })
+			if pp.before(fd, nil) {
+				c.ok(key, call.Pos(), "%s is evaluated on every path to an accepting exit", what)
+				return true
+			}
+			var under []string
+			for _, pc := range pathCondsAt(parents, call) {
+				if pc.after || pc.loop {
+					continue
+				}
+				// a test of an error against nil
+				if be, ok := pc.e.(*ast.BinaryExpr); ok && (be.Op == token.EQL || be.Op == token.NEQ) && (isNilExpr(info, be.X) || isNilExpr(info, be.Y)) {
+					continue
+				}
+				if blsReviewedCondition(info, fd, fn, pc.e) {
+					continue
+				}
+				t := types.ExprString(pc.e)
+				if pc.neg {
+					t = "!(" + t + ")"
+				}
+				under = append(under, t)
+			}
+			if len(under) > 0 {
+				c.bad(key, call.Pos(), "%s is only evaluated when %s: when that fails the message passes without its signature having been looked at", what, strings.Join(under, " && "))
+			} else {
+				c.ok(key, call.Pos(), "%s stands under no condition other than the reviewed ones (blsConditional)", what)
+			}
+			return true
+		})
+	})
+}
+
+// blsConditional: the conditions a verification may stand under, reviewed against the spec.
+//   - phase0.ProcessDeposit: apply_deposit checks the proof of possession only `if pubkey not in validator_pubkeys`
+//     (a top-up carries no valid signature), and zrnt's caller-supplied flag skips it for deposits whose proof was
+//     checked beforehand (genesis): the bool parameter, and the bool local computed from the registry lookup
+//     (ValidatorIndex of the pubkey cache).
+//   - common.PostSlotTransition: the caller of the state transition chooses whether the block's signature and state
+//     root are validated (validate_result of state_transition): the bool parameter.
+var blsConditional = map[string]string{"phase0.ProcessDeposit": "param,lookup", "common.PostSlotTransition": "param"}
+
+func blsReviewedCondition(info *types.Info, fd *ast.FuncDecl, fn string, e ast.Expr) bool {
+	kinds, ok := blsConditional[fn]
+	if !ok {
+		return false
+	}
+	id, ok := ast.Unparen(e).(*ast.Ident)
+	if !ok {
+		return false
+	}
+	obj := info.ObjectOf(id)
+	if obj == nil {
+		return false
+	}
+	if b, ok := obj.Type().Underlying().(*types.Basic); !ok || b.Kind() != types.Bool {
+		return false
+	}
+	// a bool parameter
+	for _, f := range fd.Type.Params.List {
+		for _, nm := range f.Names {
+			if info.Defs[nm] == obj {
+				return true
+			}
+		}
+	}
+	if !strings.Contains(kinds, "lookup") {
+		return false
+	}
+	// a bool local computed from the result of the registry lookup
+	looked := map[types.Object]bool{}
+	ast.Inspect(fd.Body, func(n ast.Node) bool {
+		as, ok := n.(*ast.AssignStmt)
+		if !ok || len(as.Rhs) != 1 {
+			return true
+		}
+		if call, isCall := ast.Unparen(as.Rhs[0]).(*ast.CallExpr); isCall {
+			if f := calleeFunc(info, call); f != nil && f.Name() == "ValidatorIndex" {
+				for _, l := range as.Lhs {
+					if lid, ok := l.(*ast.Ident); ok && info.ObjectOf(lid) != nil {
+						looked[info.ObjectOf(lid)] = true
+					}
+				}
+			}
+		}
+		return true
+	})
+	if looked[obj] {
+		return true
+	}
+	found := false
+	ast.Inspect(fd.Body, func(n ast.Node) bool {
+		as, ok := n.(*ast.AssignStmt)
+		if !ok || len(as.Rhs) != len(as.Lhs) {
+			return true
+		}
+		for i, l := range as.Lhs {
+			if lid, ok := l.(*ast.Ident); ok && info.ObjectOf(lid) == obj {
+				for o := range looked {
+					if mentions(info, as.Rhs[i], o) {
+						found = true
+					}
+				}
+			}
+		}
+		return true
+	})
+	return found
 }
